@@ -128,6 +128,25 @@ impl Scenario for HeightLimit {
                 op_log(format!("set_max_height_allowed({m}) although height {want} is in use"));
                 cover("shrink-below-height-in-use");
                 let r = catch(|| st.set_max_height_allowed(m));
+                if r.is_err() {
+                    // a refused reconfiguration changes nothing: the configured limit n still holds exactly
+                    cover("refused-shrink-then-graph-at-the-old-limit");
+                    let x1 = fresh();
+                    v.set(x1.clone());
+                    let (top2, eval2) = chain(&v.watch(), n - 1, 8);
+                    let o2 = top2.observe();
+                    match catch(|| st.stabilise()) {
+                        Err(msg) => violation("C19/legal-height-rejected/after-refused-shrink", format!("limit {n} (a shrink to {m} was refused), new chain of height {n}: {msg}")),
+                        Ok(()) => {
+                            if let Ok(val) = o2.try_get_value() {
+                                let w = eval2(&x1);
+                                let (v2, w2) = (val.clone(), w.clone());
+                                require("C19/value-after-refused-shrink", F::eq(&val, &w), move || format!("observer returned {v2:?}, expected {w2:?}"));
+                            }
+                        }
+                    }
+                    keep.things.push(Box::new(o2));
+                }
                 if r.is_ok() {
                     v.set(fresh());
                     let r2 = catch(|| st.stabilise());
